@@ -165,9 +165,14 @@ def suite_scale(ctx, case):
     _, cond = C01.prism_eq_residual(p0)
     if cond > 1e5: ctx.dist['illconditioned-skipped'] += 1; return
     sd2 = scale_sd(sd, s)
-    for mode in ('ctor', 'assign'):
+    whole = float(sd2['kT']).is_integer() and sd2['kT'] >= 1
+    for mode in ('ctor', 'assign') + (('ctor as a Python int', 'ctor as numpy.int64', 'assign as a Python int') if whole else ()):
+        # a whole-number kT typed as an integer (kT=2) is the same temperature as 2.0
         if mode == 'ctor': p1, y1 = run_cost(sd2, x)
-        else: p1, y1 = run_cost(dict(sd2, kT=1.0), x, kT_assign=sd2['kT'])
+        elif mode == 'assign': p1, y1 = run_cost(dict(sd2, kT=1.0), x, kT_assign=sd2['kT'])
+        elif mode == 'ctor as a Python int': p1, y1 = run_cost(dict(sd2, kT_type='int'), x)
+        elif mode == 'ctor as numpy.int64': p1, y1 = run_cost(dict(sd2, kT_type='int64'), x)
+        else: p1, y1 = run_cost(dict(sd2, kT=1.0), x, kT_assign=int(sd2['kT']))
         ok, e = close_arr(y1, y0, 1e-9 * cond)
         ctx.pred('scale', case, ok, 'cost changed when every energy and kT were multiplied by %g (kT via %s): %.3g' % (s, mode, e), key='C04:scale-cost')
         # pmf of identical arrays scales by s
@@ -307,6 +312,7 @@ def generate(ctx):
         sd = G.gen_system(rng, maxn=2, maxL=ctx.n(20, 48))
         s = float('%.3g' % (10 ** rng.uniform(-2, 2)))
         if rng.random() < 0.3: s = rng.choice([1e-6, 1.66e-21, 4.14e-21, 1e6, 2.5e3])          # the same physics in other energy units (J per particle, J/mol, K)
+        elif rng.random() < 0.3: sd['kT'] = 1.0; sd.pop('kT_type', None); s = float(rng.choice([2, 3, 4, 300]))          # whole-number temperatures (also typed as integers, see suite_scale)
         case = {'sys': sd, 's': s, 'x': G.gen_x(rng, sd, 'moderate')}
         ctx.case('scale', case, True, tags=['scale:%s' % ('up' if s > 1 else 'down')] + ['pot:' + pr['pot'][0] for pr in sd['pairs'].values()]); suite_scale(ctx, case)
     for q in range(ctx.n(4, 40)):
